@@ -15,7 +15,28 @@ from cv.core import VERIF, Check  # noqa: E402
 from cayleypy import CayleyGraphDef, MatrixGenerator, create_graph  # noqa: E402
 
 # theorems `regenerated CayleyGraphDef methods (permutation branch) = model` (CvProps/C10g.lean; translator harness/extract/pylean.py)
-GEN_THEOREMS = []
+GEN_THEOREMS = [
+    "Cv.C10g.lrx4_created",
+    "Cv.C10g.c3_created",
+    "Cv.C10g.c3_makeIC",
+    "Cv.C10g.generators_inverse_map_gen",
+    "Cv.C10g.generators_inverse_map_gen_inrange",
+    "Cv.C10g.with_inverted_generators_gen",
+    "Cv.C10g.revert_path_gen",
+    "Cv.C10g.make_inverse_closed_gen",
+    "Cv.C10g.make_inverse_closed_gen_closed",
+    "Cv.C10g.make_inverse_closed_gen_open",
+    "Cv.C10g.make_inverse_closed_gen_raw",
+    "Cv.C10g.generators_inverse_map_source_spec",
+    "Cv.C10g.generators_inverse_map_source_none",
+    "Cv.C10g.generators_inverse_map_source_total",
+    "Cv.C10g.with_inverted_generators_source_spec",
+    "Cv.C10g.with_inverted_generators_source_succeeds",
+    "Cv.C10g.make_inverse_closed_source_closed",
+    "Cv.C10g.make_inverse_closed_source_succeeds",
+    "Cv.C10g.make_inverse_closed_source_prefix",
+    "Cv.C10g.revert_path_source_spec",
+]
 
 THEOREMS = [
     "Cv.C10.lrx4_created",
